@@ -92,9 +92,44 @@ class RT:
 rt = None
 
 
+class _Worker:
+    """A thread of the world that exists before any test starts (a layer's server or pool
+    thread, something a test module started at import) and does printing jobs for the tests."""
+
+    def __init__(self):
+        import queue
+        import threading
+        self.q = queue.Queue()
+        self.t = threading.Thread(target=self._loop, daemon=True, name='world-worker')
+        self.t.start()
+
+    def _loop(self):
+        while True:
+            fn, done = self.q.get()
+            try:
+                fn()
+            except BaseException:  # noqa
+                pass
+            finally:
+                done.set()
+
+    def do(self, fn):
+        import threading
+        done = threading.Event()
+        self.q.put((fn, done))
+        done.wait(20)
+
+
+worker = None
+
+
 def install(world, plan, simpid=0, sink=None):
-    global rt
+    global rt, worker
     rt = RT(world, plan, simpid, sink)
+    worker = None
+    if any(e.get('a') == 'write' and str(e.get('stream', '')).startswith('thread.')
+           for e in plan):
+        worker = _Worker()       # (per process: threads do not survive a fork)
     return rt
 
 
@@ -148,6 +183,14 @@ def _act(r, i, e, occ):
             sys.stderr.buffer.write(text.encode('utf-8') + bytes.fromhex(e.get('hex', '')))
         elif st == 'print':
             print(text, end='')
+        elif st in ('thread.stdout', 'thread.stderr'):
+            # the test hands a printing job to a thread that existed before the test started;
+            # it writes to whatever sys.stdout / sys.stderr is at that moment
+            name = st[7:]
+            if worker is not None:
+                worker.do(lambda: getattr(sys, name).write(text))
+            else:
+                getattr(sys, name).write(text)
         elif st == 'realstderr.bytes':
             # raw bytes on fd 2 of the child (a C library, a helper process, Latin-1 text)
             if r.real_stderr is not None:
